@@ -257,8 +257,16 @@ def run_shard(shard, tier, seed):
                     return b
             return b
 
+        def junk():
+            # undecodable / truncated / prefix-only strings: failed decodes are part of an analysis history too
+            b = I.gen_bytes(rnd, mode, e)
+            if I.is_x86 and rnd.random() < 0.5:
+                pfx = bytes([[0x66, 0x67, 0xF2, 0xF3, 0x48, 0x41][rnd.randrange(6 if I.is_x64 else 4)]])
+                b = pfx + [b"\x0f\xff", b"\xd6", b"\xff\xff", b"", b"\x0f"][rnd.randrange(5)] + b[:rnd.randrange(0, 3)]
+            return b
+
         B = [enc().hex() for _ in range(rnd.randrange(1, 5))]
-        H = [enc().hex() for _ in range(rnd.randrange(3, 25))]
+        H = [(junk() if rnd.random() < 0.2 else enc()).hex() for _ in range(rnd.randrange(3, 25))]
         states = []
         for _ in range(3):
             s = C02.gen_state(rnd, regs, arena)
